@@ -284,7 +284,34 @@ func (fc *FnCtx) applyContract(callee *ssa.Function, c *Contract, args []Val, bi
 	// frame
 	post := fc.havocForContract(callee, c, env, pre)
 	fc.cur = post
-	res := fc.freshValWF("r_"+short, resT)
+	var res Val
+	if c.IsFunction {
+		// deterministic: the same arguments give the same result
+		ls := layout(resT)
+		res = Val{T: resT, L: make([]string, len(ls))}
+		var argLeaves, argSorts []string
+		for i, p := range callee.Params {
+			if i < len(args) {
+				a := fc.coerce(args[i], p.Type())
+				argLeaves = append(argLeaves, a.L...)
+				for _, lf := range layout(p.Type()) {
+					argSorts = append(argSorts, lf.Sort)
+				}
+			}
+		}
+		for k, lf := range ls {
+			fname := qsym(fmt.Sprintf("fn!%s!%d", c.Func, k))
+			fc.declareFunOnce(fname, "("+strings.Join(argSorts, " ")+") "+lf.Sort)
+			if len(argLeaves) == 0 {
+				res.L[k] = fname
+			} else {
+				res.L[k] = app(fname, argLeaves...)
+			}
+		}
+		post.assume(fc.wfFacts(res))
+	} else {
+		res = fc.freshValWF("r_"+short, resT)
+	}
 	env.st, env.old = post, pre
 	env.results = splitResults(res, callee.Signature.Results())
 	for _, e := range c.Ensures {
